@@ -1,35 +1,74 @@
 ---------------------------- MODULE LexFileTrace ----------------------------
-(* V phase of C20 (lexical part): every generated source file is streamed, unit by unit,    *)
-(* through the lexer machine of its language. One behaviour per file: Chunk consumes the     *)
-(* next K units, Finish decides the end of input.                                            *)
-(*   Files[f] = [lang, path, text (source units: UTF-16 for java, cs, ts), exp1, exp2]      *)
-(* exp1/exp2 are the skeleton hashes of the TWIN of the file: the same file generated from   *)
-(* the same meta-model with a harmless text in place of the payload (-1: no twin).           *)
-(* The property "text taken from descriptions, invariant messages or constants cannot        *)
-(* terminate a comment, docstring or literal early" is: the lexical skeleton (code units;    *)
-(* one token per literal; one per run of comments) does not depend on that text.             *)
+(***************************************************************************)
+(* V phase of C20 (lexical part). The observations are generated source    *)
+(* files; every file is streamed, unit by unit, through the lexer machine  *)
+(* of its language (Lexers!Step).                                          *)
+(*                                                                         *)
+(*   Twins[f] = [lang, text]      a file generated from the meta-model in  *)
+(*                                which every payload is a harmless word   *)
+(*   Hunks[h] = [twin, tb, te, text]  a VARIANT of that file, generated    *)
+(*                                from the same meta-model with a hostile  *)
+(*                                payload, differs from the twin exactly   *)
+(*                                in that Twins[twin].text[tb+1..te] is    *)
+(*                                replaced by text (tb is a multiple of K) *)
+(*                                                                         *)
+(* A behaviour walks along one twin file in chunks of K units (Chunk, End) *)
+(* and may branch off into a hunk that starts where it stands (Branch); it *)
+(* then runs the machine from the state reached so far over both spellings *)
+(* of the hunk (RunHunk) and ends.                                         *)
+(*                                                                         *)
+(* "Text taken from descriptions, invariant messages or constants cannot   *)
+(* terminate a comment, docstring or literal early" is the invariant       *)
+(* Inv_SkeletonIndependentOfPayload: after both spellings the machine is   *)
+(* in the SAME state - same mode, same pending escapes and nesting, same   *)
+(* lexical skeleton (the code units outside comments and literals, one     *)
+(* token per literal, one per run of comments; Lexers!Mix). Since a        *)
+(* variant equals its twin outside the hunks, equal states after every     *)
+(* hunk mean the whole variant has the twin's skeleton and ends like it.   *)
+(* Inv_LexicallyComplete: the twin itself has no lexical error and every   *)
+(* comment and literal is closed where the file ends.                      *)
+(***************************************************************************)
 EXTENDS Lexers, Json, IOUtils, TLC
-Files == JsonDeserialize(IOEnv.VERIF_FILES)
-K == 120
-VARIABLES f, pos, st, fin
-vars == <<f, pos, st, fin>>
-Init == f \in 1..Len(Files) /\ pos = 0 /\ st = S0(FALSE) /\ fin = FALSE
-Chunk == /\ ~fin /\ st.m # "err" /\ pos < Len(Files[f].text)
-         /\ LET e == IF pos + K < Len(Files[f].text) THEN pos + K ELSE Len(Files[f].text) IN
-            /\ st' = RunFrom(Files[f].lang, st, Files[f].text, pos + 1, e)
+Obs == JsonDeserialize(IOEnv.VERIF_FILES)
+Twins == Obs.twins
+Hunks == Obs.hunks
+K == Obs.k
+VARIABLES f, pos, st, hk, stv, env, fin
+vars == <<f, pos, st, hk, stv, env, fin>>
+\* length of the common prefix of two sequences
+RECURSIVE Common(_, _, _, _, _)
+Common(a, ia, b, ib, n) == IF ia + n > Len(a) \/ ib + n > Len(b) \/ a[ia + n] # b[ib + n] THEN n ELSE Common(a, ia, b, ib, n + 1)
+
+Init == f \in 1..Len(Twins) /\ pos = 0 /\ st = S0(FALSE) /\ hk = 0 /\ stv = S0(FALSE) /\ env = "" /\ fin = FALSE
+OnTwin == hk = 0 /\ ~fin /\ st.m # "err"
+Chunk == /\ OnTwin /\ pos < Len(Twins[f].text)
+         /\ LET e == IF pos + K < Len(Twins[f].text) THEN pos + K ELSE Len(Twins[f].text) IN
+            /\ st' = RunFrom(Twins[f].lang, st, Twins[f].text, pos + 1, e)
             /\ pos' = e
-         /\ UNCHANGED <<f, fin>>
-End ==   /\ ~fin /\ st.m # "err" /\ pos = Len(Files[f].text)
-         /\ st' = Finish(Files[f].lang, st)
+         /\ UNCHANGED <<f, hk, stv, env, fin>>
+End ==   /\ OnTwin /\ pos = Len(Twins[f].text)
+         /\ st' = Finish(Twins[f].lang, st)
          /\ fin' = TRUE
-         /\ PrintT(<<"@@PRINT@@ skel", f, st'.h1, st'.h2, st'.m>>)
-         /\ UNCHANGED <<f, pos>>
-Next == Chunk \/ End
+         /\ UNCHANGED <<f, pos, hk, stv, env>>
+\* choosing a hunk is one step, running it another: a behaviour that does not enter a hunk never pays for it
+Branch == /\ OnTwin
+          /\ \E h \in 1..Len(Hunks) :
+               /\ Hunks[h].twin = f /\ Hunks[h].tb = pos
+               /\ hk' = h
+          /\ UNCHANGED <<f, pos, st, stv, env, fin>>
+RunHunk == /\ hk # 0 /\ ~fin
+           /\ LET L == Twins[f].lang
+                  h == hk
+                  cp == Common(Twins[f].text, pos + 1, Hunks[h].text, 1, 0)      \* both spellings start alike
+                  mid == RunFrom(L, st, Twins[f].text, pos + 1, pos + cp)
+              IN /\ env' = mid.m                \* where the machine stands when the spellings part: the envelope of the payload
+                 /\ st' = RunFrom(L, mid, Twins[f].text, pos + cp + 1, Hunks[h].te)
+                 /\ stv' = RunFrom(L, mid, Hunks[h].text, cp + 1, Len(Hunks[h].text))
+           /\ fin' = TRUE
+           /\ UNCHANGED <<f, pos, hk>>
+Next == Chunk \/ End \/ Branch \/ RunHunk
 Spec == Init /\ [][Next]_vars
 
-\* every comment and literal of the file is closed where the file ends, no lexical error on the way
-Inv_LexicallyComplete == st.m # "err" /\ (fin => st.m = "code")
-\* the skeleton is the twin's skeleton
-Inv_SkeletonIndependentOfPayload ==
-  fin /\ st.m = "code" /\ Files[f].exp1 >= 0 => st.h1 = Files[f].exp1 /\ st.h2 = Files[f].exp2
+Inv_LexicallyComplete == hk = 0 => (st.m # "err" /\ (fin => st.m = "code"))
+Inv_SkeletonIndependentOfPayload == hk # 0 /\ fin => stv = st
 =============================================================================
